@@ -23,14 +23,15 @@ import (
 // (preferred) and B served by loopback TLS servers through the endpoints' own transports.
 //   1. A is healthy: name X is resolved; its answer has TTL 0, so the cache holds an entry for X
 //      that is never fresh again
-//   2. A goes down (HTTP 500 for queries and probes), B stays healthy
+//   2. A goes down (HTTP 500 for queries and probes; mode `hang`: queries get no answer before their own 150 ms
+//      deadline, probes fail at once), B stays healthy
 //   3. n queries alternating X and Y: every exchange with A fails; after error-threshold
 //      consecutive failures the manager must elect B
 //   4. a last query for a new name Z
 // Whatever the resolver does with the expired entry for X, the failures on A must reach the
 // manager: Z has to be answered by B.
 //
-// case: failover <threshold> <n>      impl: final=<A|B|fail> changed=<0|1>
+// case: failover <threshold> <n> [hang]      impl: final=<A|B|fail> changed=<0|1>
 
 type foCache struct {
 	mu sync.Mutex
@@ -53,7 +54,18 @@ type foServer struct {
 
 func (s *foServer) handler(w http.ResponseWriter, r *http.Request) {
 	body, _ := io.ReadAll(r.Body)
-	if atomic.LoadInt32(&s.down) == 1 {
+	switch atomic.LoadInt32(&s.down) {
+	case 1:
+		w.WriteHeader(500)
+		return
+	case 2:
+		// black hole for queries: nothing comes back before the query's own deadline; the manager's probe fails at once
+		if len(body) >= 12 {
+			select {
+			case <-r.Context().Done():
+			case <-time.After(3 * time.Second):
+			}
+		}
 		w.WriteHeader(500)
 		return
 	}
@@ -78,7 +90,7 @@ func foQuery(id int, name string) query.Query {
 	return q
 }
 
-func runFailover(threshold, n int) string {
+func runFailover(threshold, n int, hang bool) string {
 	mk := func(mark byte) *foServer {
 		s := &foServer{mark: mark}
 		ts := httptest.NewUnstartedServer(http.HandlerFunc(s.handler))
@@ -109,7 +121,12 @@ func runFailover(threshold, n int) string {
 	res.DOH.Cache = &foCache{m: map[interface{}]interface{}{}}
 	ask := func(id int, name string) string {
 		buf := make([]byte, 4096)
-		ctx, cancel := context.WithTimeout(context.Background(), 2*time.Second)
+		// every query carries its own deadline, as the proxy's handlers give it (proxy/udp.go, tcp.go: p.Timeout)
+		to := 2 * time.Second
+		if hang {
+			to = 150 * time.Millisecond
+		}
+		ctx, cancel := context.WithTimeout(context.Background(), to)
 		defer cancel()
 		k, _, err := res.Resolve(ctx, foQuery(id, name), buf)
 		if err != nil || k < 16 {
@@ -126,7 +143,11 @@ func runFailover(threshold, n int) string {
 	if ask(1, "x") != "A" {
 		return "ERR warmup"
 	}
-	atomic.StoreInt32(&a.down, 1)
+	if hang {
+		atomic.StoreInt32(&a.down, 2)
+	} else {
+		atomic.StoreInt32(&a.down, 1)
+	}
 	for i := 0; i < n; i++ {
 		name := "x"
 		if i%2 == 1 {
@@ -148,7 +169,7 @@ func init() {
 	areas["failover"] = func(c *Ctx) error {
 		one := func(l string) {
 			f := strings.Fields(l)
-			if len(f) != 3 || f[0] != "failover" {
+			if (len(f) != 3 && !(len(f) == 4 && f[3] == "hang")) || f[0] != "failover" {
 				c.Emit(l, "bad-op")
 				return
 			}
@@ -159,8 +180,11 @@ func init() {
 				return
 			}
 			c.Begin(l)
-			c.Emit(l, runFailover(th, n))
+			c.Emit(l, runFailover(th, n, len(f) == 4))
 			c.Stat("threshold:" + f[1])
+			if len(f) == 4 {
+				c.Stat("mode:hang")
+			}
 		}
 		if ls := replayLines(); ls != nil {
 			for _, l := range ls {
@@ -171,6 +195,11 @@ func init() {
 		r := NewRng(c.seed)
 		for i := 0; i < c.n; i++ {
 			th := 2 + r.Intn(4)
+			if i%2 == 1 {
+				// the active endpoint is a black hole: every query fails by running into its OWN deadline
+				one(fmt.Sprintf("failover %d %d hang", th, 2*th+r.Intn(3)))
+				continue
+			}
 			one(fmt.Sprintf("failover %d %d", th, 3*th+r.Intn(6)))
 		}
 		return nil
